@@ -3,6 +3,7 @@ package props
 import (
 	"astverif/layout"
 	"astverif/lin"
+	"astverif/ownership"
 
 	"golang.org/x/tools/go/ssa"
 )
@@ -126,6 +127,9 @@ func c12(c *Ctx) {
 	lk := layout.New(c.P)
 	lk.A2(r, packetPairs(c)[2:])
 	c12Duration(c)
+	// a decoded header field stays what was decoded: no retained slice (private data, extension data, payload) aliases the
+	// pooled payload buffer (rule S3 of C16)
+	r.Floor("S3", "borrowed/owned byte-slice source sites", ownership.BorrowTaint(c.P, r), 10)
 	r.Floor("A3", "structure fields compared", countPrefix(r, "A3/", "/field/"), 60)
 }
 
